@@ -2,7 +2,7 @@ package tsm1_test
 
 // govc-bounded: dir=tsdb/engine/tsm1
 // govc-bounded: stands-in-for=tsdb/engine/tsm1 Compactor.CompactFull / CompactFast over block layouts (compacting any set of data files never changes what a read returns: per key the latest value per timestamp minus tombstoned ranges; output blocks of a key are sorted and do not overlap) - the merging iterators (tsmBatchKeyIterator.Next / merge<T> / combine<T> / chunk<T>) are proved only in their decode decision and block order; their bookkeeping of partially read and pooled blocks over arbitrary layouts is checked BOUNDED
-// govc-bounded: bound=real Compactor on two generations of real TSM files; per generation each of three keys has one of 5 block layouts (absent, one block, two adjacent blocks, two blocks with a gap, one block overlapping the other generation's range) with distinct values per generation; tombstones: none, or [2,3] on the first key of the older generation, or [3,3] and [7,7] on the first key of the newer generation (a later block of a key tombstoned, the first one not); block size 2 and 1000; full and fast compaction: 5^3 x 5^3 layouts x 3 tombstone settings (quick: the 3 x 5^3 layouts where the older generation is one of 3 fixed layouts) x 2 sizes x 2 modes; the content read back from the output (all blocks, tombstones applied) is compared with newest-wins over the inputs, and every key's output blocks must be sorted and disjoint
+// govc-bounded: bound=real Compactor on two generations of real TSM files; per generation each of three keys has one of 5 block layouts (absent, one block, two adjacent blocks, two blocks with a gap, one block overlapping the other generation's range) with distinct values per generation; tombstones: none, or [2,3] on the first key of the older generation, or [3,3] and [7,7] on the first key of the newer generation (a later block of a key tombstoned, the first one not); block size 2 and 1000; full and fast compaction: 5^2 x 5^3 layouts x 3 tombstone settings (thorough: every layout of the older generation's first two keys, its third key fixed; quick: the 3 x 5^3 layouts where the older generation is one of 3 fixed layouts) x 2 sizes x 2 modes; the content read back from the output (all blocks, tombstones applied) is compared with newest-wins over the inputs, and every key's output blocks must be sorted and disjoint
 
 import (
 	"fmt"
@@ -103,6 +103,14 @@ func TestGovcBounded(t *testing.T) {
 	newerLayouts := olderLayouts
 	if !thorough {
 		olderLayouts = [][3]int{{2, 2, 2}, {1, 4, 3}, {3, 2, 0}}
+	} else {
+		// every layout of the first two keys, the third key fixed (two adjacent blocks): 25 x 125 pairs
+		olderLayouts = nil
+		for a := 0; a < 5; a++ {
+			for b := 0; b < 5; b++ {
+				olderLayouts = append(olderLayouts, [3]int{a, b, 2})
+			}
+		}
 	}
 	root, err := os.MkdirTemp("", "govc-compact")
 	if err != nil {
